@@ -9,7 +9,7 @@ Directive grammar (lines starting with //@ inside a unit template):
   //@spec                                     following lines go between signature and body
   //@loop <n> [kind=while|for|loop]           following lines go before the body of the n-th loop; a different loop form is a lost anchor
   //@proof before|after|entry|exit "<text>" [#k]     ghost lines spliced at a statement anchor
-  //@rw <RULE> [count=n] [optional]  //@old ... //@new ...      declared syntactic rewrite (fail-closed; `optional`: 0 matches = text kept verbatim)
+  //@rw <RULE> [count=n|any] [optional]  //@old ... //@new ...      declared syntactic rewrite (fail-closed; `optional`: 0 matches = text kept verbatim)
   //@hoist <fn> [<fn> ...]                    R-HOIST: the nested fn items of this function — exactly the
                                               named set, fail-closed — are removed from its body because the
                                               unit supplies each of them as a top-level item (its own //@extract
@@ -262,7 +262,7 @@ class Generator:
                 # `optional`: when the pattern is absent (0 matches) nothing is rewritten and the text goes to the
                 # verifier verbatim — still fail-closed (Verus either accepts the original construct or the unit is
                 # undecided), but an edit that removes the rewritten construct reaches the contracts instead of exit 2
-                rw = {'rule': dd['_'][0], 'count': int(dd.get('count', 1)), 'old': [], 'new': [],
+                rw = {'rule': dd['_'][0], 'count': (None if dd.get('count') == 'any' else int(dd.get('count', 1))), 'old': [], 'new': [],
                       'optional': 'optional' in dd['_'][1:]}
                 rws.append(rw)
                 cur = None
@@ -360,8 +360,10 @@ class Generator:
             hits = list(rx.finditer(text))
             if rw.get('optional') and not hits:
                 continue
-            if len(hits) != rw['count']:
-                raise Undecided(f"{f.id}: rewrite {rw['rule']} expected {rw['count']} match(es) of {old[:60]!r}, found {len(hits)}")
+            # `count=any`: every occurrence (at least one) is rewritten the same way — for call abstractions whose
+            # replacement is faithful per occurrence, so that an edit removing or adding an occurrence reaches the verifier
+            if (rw['count'] is None and not hits) or (rw['count'] is not None and len(hits) != rw['count']):
+                raise Undecided(f"{f.id}: rewrite {rw['rule']} expected {rw['count'] or 'at least one'} match(es) of {old[:60]!r}, found {len(hits)}")
             # fail-closed: a `$n` wildcard may only capture bracket-balanced text, so that with a pattern
             # `head => { $1 } tail` the capture is exactly the block's contents and can never run over the
             # closing bracket and swallow a neighbouring item (e.g. an inserted match arm)
